@@ -251,6 +251,34 @@ func freshValueSafe(name string, t types.Type) (v Value) {
 }
 
 // modSpec describes one modifies clause evaluated in the entry state.
+// expandModsets replaces every modifies item `modset(NAME)` by the items of the named set, which
+// is written as the modifies clauses of a pseudo-contract `//@ func modset.NAME` (global name).
+func (P *Prog) expandModsets(cl []Clause, depth int) []Clause {
+	var out []Clause
+	for _, m := range cl {
+		if call, ok := m.Expr.(*ast.CallExpr); ok {
+			if id, ok := call.Fun.(*ast.Ident); ok && id.Name == "modset" && len(call.Args) == 1 && depth < 4 {
+				name := exprStr(call.Args[0])
+				found := false
+				for _, c := range P.contracts {
+					if c.FnName == "modset."+name {
+						c.bound = true
+						out = append(out, P.expandModsets(c.Modifies, depth+1)...)
+						found = true
+						break
+					}
+				}
+				if !found {
+					specErr("unknown modset %s", name)
+				}
+				continue
+			}
+		}
+		out = append(out, m)
+	}
+	return out
+}
+
 type modSpec struct {
 	kind  string // loc, elems, entries, everything
 	loc   Loc
@@ -273,7 +301,8 @@ func butFor(mods []modSpec) (map[string]bool, bool) {
 
 func (ex *Exec) modSpecs(fr *Frame, ct *Contract) []modSpec {
 	var out []modSpec
-	for _, m := range ct.Modifies {
+	mods := ex.P.expandModsets(ct.Modifies, 0)
+	for _, m := range mods {
 		env := ex.specEnv(fr, ex.entry, nil, true)
 		env.useLocals = false
 		if call, ok := m.Expr.(*ast.CallExpr); ok {
